@@ -352,6 +352,10 @@ class RefEval:
 
         if t == "Power":
             a, b = kids
+            if abs(b.v) > 4096:
+                # a^b with such an exponent is out of range unless a is within 1e-2 of one; rewriting to an
+                # integer power of an int constant would make CPython compute a gigantic exact integer
+                return R(RANGE, why=("power exponent", M.text(m)[:80]))
             if a.q is not None:
                 if a.q == 0:
                     return self._bad(m, "power with base zero")
